@@ -159,6 +159,87 @@ def enumerate (f : Facts) (m : OvMode) (idx dom : String) (len group : Nat) : Op
     let lines := dfs c idx (init w cap) {} fnvBasis 0 "" #[]
     some ("\n".intercalate lines.toList)
 
+/-! ### concurrent sub-family: membership of observed outcomes in the sequential orders -/
+
+/-- a call of a concurrent program: a model op or one of the read accessors -/
+inductive COp where
+  | op (o : Op)
+  | readOff | readIsc | readReason | readPeer
+
+def parseCOp (c : String) : Option COp :=
+  let h := c.take 1 |>.toString
+  let rest := (c.drop 1).toString
+  let nums? : Option (List Nat) := if rest = "" then some [] else (rest.splitOn ".").mapM (·.toNat?)
+  match nums? with
+  | none => none
+  | some nums =>
+    match h, nums with
+    | "s", [o] => some (.op (.recordSent o))
+    | "a", [f, o] => some (.op (.recordAck f o))
+    | "c", [r] => some (.op (.cancel r))
+    | "v", [f] => some (.op (.advance f))
+    | "r", [p, f, o] => some (.op (.requestResume p f o))
+    | "k", [l] => some (.op (.waitCredit l))
+    | "w", [] => some (.op .waitReconnect)
+    | "p", [o, d, w] => some (.op (.pushReplay o d false (List.replicate w (UInt8.ofNat ((o + d) % 256)))))
+    | "y", [o] => some (.op (.replayFrom o))
+    | "t", [p] => some (.op (.setPeer p))
+    | "o", [] => some .readOff
+    | "i", [] => some .readIsc
+    | "n", [] => some .readReason
+    | "g", [] => some .readPeer
+    | _, _ => none
+
+def parseProg (w : String) : Option (List COp) :=
+  if w = "-" then some [] else (w.splitOn ",").mapM parseCOp
+
+def us (s : String) : String := s.replace " " "_"
+
+def callCOp (f : Facts) (m : OvMode) (s : State) : COp → State × String
+  | .op o => let (s', r) := Repe.Transfer.step f m s o; (s', us (showRet r))
+  | .readOff => (s, if s.poisoned then "PANIC" else s!"off_{s.sent}_{s.acked}")
+  | .readIsc => (s, if s.poisoned then "PANIC" else s!"isc_{if s.cancelled.isSome then 1 else 0}")
+  | .readReason => (s, if s.poisoned then "PANIC" else s!"reason_{showOpt s.cancelled}")
+  | .readPeer => (s, if s.poisoned then "PANIC" else s!"peer_{showOpt s.peer}")
+
+def concFinal (f : Facts) (m : OvMode) (s : State) : String :=
+  let (_, r) := Repe.Transfer.step f m s .waitReconnect
+  us (showState s ++ "/" ++ showRet r)
+
+/-- outcomes of all sequential orders that keep each thread's program order -/
+partial def seqOutcomes (f : Facts) (m : OvMode) (s : State) (rest : List (List COp)) (rets : List (List String))
+    (acc : List String) : List String := Id.run do
+  if rest.all List.isEmpty then
+    let o := ";".intercalate (rets.map fun r => ",".intercalate r.reverse) ++ "|" ++ concFinal f m s
+    return if acc.contains o then acc else o :: acc
+  let mut acc := acc
+  let mut i := 0
+  for p in rest do
+    match p with
+    | [] => pure ()
+    | c :: cs =>
+      let (s', r) := callCOp f m s c
+      let rets' := rets.mapIdx fun j rs => if j = i then r :: rs else rs
+      acc := seqOutcomes f m s' (rest.set i cs) rets' acc
+    i := i + 1
+  return acc
+
+def concLine (f : Facts) (m : OvMode) (idx : String) (ws : List String) : String :=
+  -- ws = <window> <cap> <setup> :: progs… [:: outcomes…]
+  match ws with
+  | w :: c :: setup :: "::" :: tail =>
+    let progsW := tail.takeWhile (· ≠ "::")
+    let observed := (tail.dropWhile (· ≠ "::")).drop 1
+    match w.toNat?, c.toNat?, parseProg setup, progsW.mapM parseProg with
+    | some w, some c, some setup, some progs =>
+      let s0 := setup.foldl (fun s c => (callCOp f m s c).1) (init w c)
+      let allowed := seqOutcomes f m s0 progs (progs.map fun _ => []) []
+      match observed.find? (fun o => !allowed.contains o) with
+      | some bad => s!"{idx} conc NONLIN {bad}"
+      | none => s!"{idx} conc ok {observed.length}"
+    | _, _, _, _ => idx ++ " bad-op"
+  | _ => idx ++ " bad-op"
+
 /-! ### line protocol -/
 
 structure St where
@@ -199,6 +280,7 @@ def step (st : St) (ws : List String) : St × String :=
       | some out => (st, out)
       | none => (st, idx ++ " bad-op")
     | _, _ => (st, idx ++ " bad-op")
+  | "conc" :: idx :: rest => (st, concLine Gen.transferFacts st.mode idx rest)
   | _ :: idx :: _ =>
     match parseOp ws with
     | some op =>
